@@ -236,6 +236,9 @@ func (x *bctx) buildV2(kind string) bool {
 type V2ContractSpec struct {
 	Data                          []byte
 	ProofHeight, ExpirationHeight uint64
+	// Twin forms a contract identical to the one of the previous spec (same
+	// keys, values and terms; only the ID differs).
+	Twin bool
 }
 
 func (x *bctx) newV2Contract(budget types.Currency) types.V2FileContract {
